@@ -456,6 +456,21 @@ func (*c14) Corpus() []any {
 		// skip-schema-validation
 		out = append(out, c14Case{Kind: "corpus", Op: op, Skip: true, Chart: mk(false), Vals: tbl("a1", tbl("port", 0.0), "subb", tbl("enabled", false))})
 	}
+	// F12/F14 witnesses: lint must validate the values install validates. A default null under a
+	// table the user also sets (key present with null: required is satisfied) ...
+	nullDefault := func() *vChart {
+		return &vChart{Name: "top", Version: "1.0.0", Values: tbl("sec", tbl("flag", nil, "k", 1.0)),
+			Schema: &vSchema{Type: "object", Props: map[string]*vSchema{"sec": {Type: "object", Required: []string{"flag"}}}}}
+	}
+	// ... and a default restored for lint only after the user deleted it with a null
+	nullUser := func() *vChart {
+		return &vChart{Name: "top", Version: "1.0.0", Values: tbl("sec", tbl("flag", true)),
+			Schema: &vSchema{Type: "object", Props: map[string]*vSchema{"sec": {Type: "object", Required: []string{"flag"}}}}}
+	}
+	for _, op := range []string{"lint", "install", "template", "upgrade"} {
+		out = append(out, c14Case{Kind: "corpus", Op: op, Chart: nullDefault(), Vals: tbl("sec", tbl("other", 1.0))})
+		out = append(out, c14Case{Kind: "corpus", Op: op, Chart: nullUser(), Vals: tbl("sec", tbl("flag", nil))})
+	}
 	// CRD caveat: crds/ are installed before the values are validated
 	out = append(out, c14Case{Kind: "corpus", Op: "install", Chart: mk(true), Vals: tbl("replicas", -1.0, "subb", tbl("enabled", false))})
 	out = append(out, c14Case{Kind: "corpus", Op: "install", SkipCRDs: true, Chart: mk(true), Vals: tbl("replicas", -1.0, "subb", tbl("enabled", false))})
@@ -492,7 +507,7 @@ func sortedMapKeys(m map[string]any) []string {
 }
 
 func (g *c14Gen) forVal(v any, depth int) *vSchema {
-	wrong := g.r.Intn(14) == 0
+	wrong := g.r.Intn(30) == 0
 	switch x := v.(type) {
 	case nil:
 		if g.r.Intn(2) == 0 {
@@ -515,7 +530,7 @@ func (g *c14Gen) forVal(v any, depth int) *vSchema {
 		s := &vSchema{Type: []string{"integer", "number"}[g.r.Intn(2)]}
 		if g.r.Intn(3) == 0 {
 			s.Minimum = i64(int64(x) - int64(g.r.Intn(3)) + 0)
-			if g.r.Intn(6) == 0 {
+			if g.r.Intn(12) == 0 {
 				s.Minimum = i64(int64(x) + 1)
 			}
 		}
@@ -561,18 +576,18 @@ func (g *c14Gen) forTable(m map[string]any, depth int, sections []string) *vSche
 		s.Type = "object"
 	}
 	for _, k := range sortedMapKeys(m) {
-		if g.r.Intn(10) < 6 {
+		if g.r.Intn(10) < 4 {
 			s.Props[k] = g.forVal(m[k], depth)
 		}
 		if g.r.Intn(4) == 0 {
 			s.Required = append(s.Required, k)
 		}
 	}
-	if g.r.Intn(12) == 0 {
+	if g.r.Intn(20) == 0 {
 		s.Required = append(s.Required, []string{"must", "x", "enabled"}[g.r.Intn(3)])
 	}
 	s.Required = uniq(s.Required) // "required" must hold unique items or the schema does not compile
-	if g.r.Intn(6) == 0 {
+	if g.r.Intn(10) == 0 {
 		s.NoAddition = true
 		for _, k := range append([]string{"global"}, sections...) {
 			if g.r.Intn(8) > 0 {
